@@ -533,7 +533,9 @@ func runC05(c *Ctx) {
 	c.Rep.Exhaustive = append(c.Rep.Exhaustive, fmt.Sprintf("all %d sequences of up to %d tokens over { } [ ] , : 1 \"a\" null true SP", nt, tl))
 	// every byte value as the escape letter, as each of the four hex digits, and raw
 	for x := 0; x < 256; x++ {
-		for _, f := range []string{"\"\\%c\"", "\"\\u000%c\"", "\"\\u00%c0\"", "\"\\u0%c00\"", "\"\\u%c000\"", "\"%c\"", "\"a\\%cb\""} {
+		for _, f := range []string{"\"\\%c\"", "\"\\u000%c\"", "\"\\u00%c0\"", "\"\\u0%c00\"", "\"\\u%c000\"", "\"%c\"", "\"a\\%cb\"",
+			// the second escape of a surrogate pair, and what follows a lone half
+			"\"\\ud800\\udc0%c\"", "\"\\ud800\\udc%c0\"", "\"\\ud800\\ud%c00\"", "\"\\ud800\\u%c000\"", "\"\\uD83D\\uDE0%c\"", "\"\\ud800\\%c\"", "\"\\udc00\\u004%c\""} {
 			lit := []byte(strings.Replace(f, "%c", string([]byte{byte(x)}), 1))
 			c05Verdicts(c, lit, true)
 			c05Strings(c, lit)
